@@ -292,6 +292,10 @@ pub fn run(o: &Opts) -> Report {
                 items.push((src, vec![]));
             }
         }
+        // rule names that coincide with identifiers of the generated code or of the prelude
+        for n in ["Rule", "rules", "generics", "wrapper", "constant", "unicode", "R", "T", "I", "Box", "Option", "Vec", "String", "content", "span", "Span", "Position", "Input", "Stack", "Tracker", "TypedNode", "Pairs", "Skipped", "Str", "pest_typed", "core", "alloc", "std", "Choice2", "Rep", "Token", "pairs", "tags", "P", "main", "skip"] {
+            items.push((format!("{} = {{ \"a\" }}\nr = {{ {} ~ {}? }}", n, n, n), vec!["emit_rule_reference".to_string()]));
+        }
         crate::det::write_probe_crates(dir, "probe_builtin", &items, 100000);
         rep.cells.insert("builtins_compile_probed".into(), items.len() as u64);
     }
